@@ -1,6 +1,7 @@
 package main
 
 import (
+	"strings"
 	"go/token"
 	"go/types"
 
@@ -76,6 +77,30 @@ func c30(c *Ctx) {
 		fw := one(c, "acbw.updateState call", callsIn(up, Callee("grpc", "acBalancerWrapper.updateState")))
 		c.ArgIs(fw, 1, "forwards-the-new-state", ParamV("s"))
 		c.MustPass("every-change-is-forwarded", pathQuery{Fn: up, Starts: []ssa.Instruction{st}, Barrier: func(in ssa.Instruction) bool { return in == ssa.Instruction(fw) }, Target: isReturn}, fw)
+		// conversely: the report is dropped (return before the store) only when the state is unchanged
+		for _, r := range returnsOf(up) {
+			if r.Block() == up.Recover || instrDominates(st, r) {
+				continue
+			}
+			c.EnteredOnlyWhen(r.Block(), "report-dropped-only-when-unchanged", Cmp(FieldLoad(fSt), token.EQL, ParamV("s")))
+		}
+		// the subchannel mutex is released on every exit of every function that takes it; the
+		// connection loop is entered with it held and releases it on every exit
+		rt := c.fn("grpc", "addrConn.resetTransportAndUnlock")
+		nBal := 0
+		for _, f := range c.scope("grpc") {
+			top := shortName(topFunc(f))
+			if !strings.HasPrefix(top, "grpc.addrConn.") && top != "grpc.ClientConn.newAddrConnLocked" {
+				continue
+			}
+			nBal++
+			if f == rt {
+				c.lockBalanceFrom("ac.mu", mu, f, true, nil)
+			} else {
+				c.lockBalanceFrom("ac.mu", mu, f, false, CallOfFn(rt))
+			}
+		}
+		c.Expect(nBal >= 10, nil, nil, "lock-balance-scope", "fewer subchannel functions than expected")
 		// callers hold ac.mu
 		upd := Callee("grpc", "addrConn.updateConnectivityState")
 		ready := ConstOfObj(c.konst("connectivity", "Ready"))
